@@ -174,6 +174,11 @@ def run(tier="quick", seed=0, arg=None):
              ['python_version == "3.8.1.*"', 'python_version != "3.8.1.*"']]
     fullp = [(t, parse_marker(t)) for t in [f'python_full_version {op} "{v}"' for v in ("3.8.5", "3.8.1", "3.8.0") for op in ("==", "!=", "<", ">=")]]
     group_pairs += [(x, y) for x in longp for y in fullp] + [(y, x) for x in longp[:4] for y in fullp[:4]]
+    # single catalogued pairs (shapes reported by seeded changes): two `!=`-groups of one variable in different `or` branches, one bare and one inside an `and`
+    # group - the re-parse folds them in another member order than `&` built them
+    for ta, tb in (('os_name != "java" and os_name != "nt" or sys_platform == "linux"', 'os_name != "posix" and os_name != "nt"'),
+                   ('os_name != "posix" and os_name != "nt"', 'os_name != "nt" and os_name != "java"')):
+        group_pairs += [((ta, parse_marker(ta)), (tb, parse_marker(tb))), ((tb, parse_marker(tb)), (ta, parse_marker(ta)))]
     W = [(t, m) for t, m in pool if t in set(WITNESS_TEXTS)]
     group_pairs += [(x, y) for x in W for y in W]
     import time as _time
